@@ -48,6 +48,15 @@ CLAIMED = {
               "of reset / move / relocation operations over a pool of owners."),
         note=TRUST + " std::unique_ptr and std::function semantics are stub bodies (assumptions); std::vector relocation is assumed to be move-construct + destroy.",
         ref="5 (C18)", technique="CBMC function contracts (DFCC) with ghost ownership counters, aliasing variants and a history lemma"),
+    "C19": dict(
+        text=("Modular proof: both env::get overloads (exact value whenever the variable is set, also when empty; default only when unset; the "
+              "no-default form raises iff unset), dl's two constructors with their extracted deleter lambdas (raise the dl exception carrying the "
+              "loader's dlerror text iff dlopen fails, close nothing and leak nothing on that path, never pass NULL to dlclose), dl::load/get, "
+              "symbol's constructor (dlerror cleared before dlsym and read after; raises iff the lookup failed; the symbol keeps a co-owning copy "
+              "of the handle) and operator() (only while the library is mapped), dl::exception. A history lemma over the shared control block shows "
+              "that copying adds an owner and closes nothing and that destroying owners in any order closes the library exactly once, after the last."),
+        note=TRUST + " getenv, dlopen/dlsym/dlclose/dlerror and std::shared_ptr are assumed contracts / stub bodies; the real loader is not exercised by the proof (only by the native replay).",
+        ref="5 (C19)", technique="CBMC function contracts (DFCC) with ghost loader state, extracted deleter lambdas and a reference-count history lemma"),
     "C07": dict(
         text=("Same functions as C06, abstract-view postconditions: appends add at the end, erase removes one element and shifts the tail, "
               "positional emplace inserts before pos, copy yields equal elements on independent storage, move/assignment transfer the whole "
